@@ -91,7 +91,7 @@ def gen_spin_orders(c):
     """regenerate coq/Gen/SpinOrders.v from the source and check its two vm_compute obligations"""
     c._locks_gen_done = True
     rc, o, e = vlib.sh([sys.executable, os.path.join(vlib.ROOT, "translator/gen_locks.py")], timeout=300)
-    names = ["orders_match_model", "orders_sufficient"]
+    names = ["orders_match_model", "orders_sufficient", "guard_helpers_match_model"]
     if rc != 0:
         for nm in names:
             c.gen_obligation(nm, False, "(translator/gen_locks.py failed: %s)" % (e.strip()[-300:]))
